@@ -120,6 +120,8 @@ impl WoodiesCCI {
 		r is Ok ==> r->Ok_0.inv() && r->Ok_0.cfg == self,
 		// documented seeds: turbo CCI(period1) and trend CCI(period2) from the source price; no bars counted
 		r is Ok ==> r->Ok_0.s1_count == 0 && r->Ok_0.turbo.0.0.window.view().len() == self.period1 && r->Ok_0.trend.0.0.window.view().len() == self.period2,
+		// C08: the constant state for the candle's source price (woodies_const_step)
+		r is Ok ==> r->Ok_0.const_state(src_val(candle, self.source)),
 //@replace Ok(Self::Instance { ==> Ok(WoodiesCCIInstance {
 //@end
 }
@@ -157,6 +159,45 @@ impl WoodiesCCIInstance {
 //@hint result
 	proof { assert(woodies_step(old(self), *src, self, r.vals()[0], r.vals()[1], r.sigs()[0], t1__, t2__, c__, mk(0real))); }
 //@end
+}
+
+// ---- C08 at indicator level: WoodiesCCI on a repeated candle: both CCIs 0, nothing counted, no signal
+pub open spec fn all_eq(v: Seq<R>, s: real) -> bool { forall|i: int| 0 <= i < v.len() ==> (#[trigger] v[i])@ == s }
+pub proof fn lemma_abs_dev_all_eq(v: Seq<R>, s: real)
+	requires all_eq(v, s)
+	ensures abs_dev_sum(v, s) == 0real
+	decreases v.len()
+{
+	if v.len() > 0 {
+		assert forall|i: int| 0 <= i < v.drop_last().len() implies (#[trigger] v.drop_last()[i])@ == s by { assert(v.drop_last()[i] == v[i]); }
+		lemma_abs_dev_all_eq(v.drop_last(), s);
+		assert(v.last()@ == s) by { assert(v.last() == v[v.len() - 1]); }
+	}
+}
+pub proof fn lemma_cci_const(pre: &CCI, x: ValueType, post: &CCI, out: ValueType)
+	requires pre.inv(), all_eq(pre.0.0.window.view(), x@), CCI::step(pre, &x, post, &out)
+	ensures out@ == 0real, all_eq(post.0.0.window.view(), x@)
+{
+	let v = post.0.0.window.view();
+	assert forall|i: int| 0 <= i < v.len() implies (#[trigger] v[i])@ == x@ by { if i < v.len() - 1 { assert(v[i] == pre.0.0.window.view()[i + 1]); } }
+	lemma_sum_all_eq(v, x@);
+	let n = v.len() as real;
+	assert((n * x@) / n == x@) by(nonlinear_arith) requires n >= 1real;
+	lemma_abs_dev_all_eq(v, x@);
+	assert(0real / n == 0real) by(nonlinear_arith) requires n >= 1real;
+}
+impl WoodiesCCIInstance {
+	pub open spec fn const_state(&self, s: real) -> bool {
+		self.inv() && all_eq(self.turbo.0.0.window.view(), s) && all_eq(self.trend.0.0.window.view(), s) && self.s1_count == 0 && self.s1_cross.up.last_delta@ == 0real
+	}
+}
+pub proof fn woodies_const_step(pre: &WoodiesCCIInstance, src: ValueType, post: &WoodiesCCIInstance, turbo: ValueType, trend: ValueType, sig: Action, t1: ValueType, t2: ValueType, c: Action, zero: ValueType)
+	requires pre.const_state(src@), post.turbo.inv() && post.trend.inv() && post.s1_cross.inv(), post.cfg == pre.cfg, woodies_step(pre, src, post, turbo, trend, sig, t1, t2, c, zero)
+	ensures turbo@ == 0real, trend@ == 0real, sig is None, post.const_state(src@)
+{
+	lemma_cci_const(&pre.turbo, src, &post.turbo, t1);
+	lemma_cci_const(&pre.trend, src, &post.trend, t2);
+	assert(0real * (1real / 1.5real) == 0real) by(nonlinear_arith);
 }
 } // verus!
 fn main() {}
